@@ -22,6 +22,7 @@ func propC08(c *Ctx) {
 	c.ruleUnquote()
 	c.ruleNormalisers()
 	c.ruleDescriptionBlankLines("C08-DESCRIPTION-BLANK-LINES")
+	c.ruleNotesLineEnds("C08-NOTES-LINE-ENDS")
 	c.ruleNextDirectiveRecognised("C08-NEXT-DIRECTIVE") // a tab after the keyword is as good as a blank
 	c.ruleBlankPairs("C08-BLANK-PAIRS")
 	c.ruleSchemaExtentByDependency("C08-SCHEMA-EXTENT")
